@@ -129,7 +129,13 @@ def direct_predicates(sc, obs, stats):
         p = prev.get(nd)
         if op[0] == "G":
             prev[nd] = o
-            ever[nd] = {e["bp"] for e in st["prpsd"] or []}
+            cur = {e["bp"] for e in st["prpsd"] or []}
+            lost = sorted((ever.get(nd, set()) & set(op[2])) - cur)
+            if lost and not sc.get("election"):
+                fails.append(("C08:proposal-entry-dropped",
+                              "gc with the BP list %s removed the entries of producers %s of that list" % (op[2], lost),
+                              {"op_index": k, "prpsd": st["prpsd"]}))
+            ever[nd] = cur
             continue
         if op[0] == "FR":
             ever[nd] = {e["bp"] for e in st["prpsd"] or []}
@@ -569,6 +575,7 @@ def election_predicates(sc, obs, stats):
     states = {0: ([], n)}
     blocks = {0: {"parent": None, "no": 0, "sid": 0}}
     prev = None
+    ever = set()     # producers holding an entry of the proposal map
     j = 0
     for k, op in enumerate(sc["ops"]):
         if op[0] == "T":
@@ -612,6 +619,36 @@ def election_predicates(sc, obs, stats):
                 fails.append(("C08:retired-producer-proposal-kept",
                               "proposals of producers %s outside the producer set %s kept after the boundary %d"
                               % (extra, o["cluster"], bestno), {"op_index": k}))
+        # the proposal map loses a producer only through gc(bps) with a BP list that does not contain it:
+        # never on an ordinary block (gc(nil)); on a snapshot block only producers outside the list
+        # (the vote ranking of that block's state, or the refreshed producer set) - in particular an
+        # entry still holding the genesis placeholder stays and keeps counting in calcLIB's quantile
+        cur = {e["bp"] for e in st["prpsd"] or []}
+        if op[0] == "D" and o["res"] == "connected":
+            lost = ever - cur
+            if lost and bestno % 100 == 0 and bestno > 0:
+                rk, c = states[blocks[main[bestno]]["sid"]]
+                cuts = [c, o.get("mem", c)] + ([prev["mem"]] if prev is not None and "mem" in prev else [])
+                sure = set(rk[:min(cuts)]) & set(o["cluster"])
+                legit = lost - sure
+                ever -= legit
+                lost = lost - legit
+            if lost:
+                fails.append(("C08:proposal-entry-dropped",
+                              "after block %d the proposal map has no entry for producers %s that had one and are in the BP list "
+                              "of the cleanup: calcLIB takes its two-thirds quantile over %d instead of %d producers"
+                              % (bestno, sorted(lost), len(cur), len(cur | ever)), {"op_index": k, "prpsd": st["prpsd"]}))
+            ever |= cur
+            boundary = bestno % 100 == 0
+            if prev is not None and st["lib_no"] != prev["state"]["lib_no"] and st["prpsd"] and not boundary:
+                np_ = len(cur | ever)
+                sup = sum(1 for e in st["prpsd"] if e["plib_no"] >= st["lib_no"])
+                if sup < np_ - (np_ - 1) // 3 and len(cur) != np_:
+                    fails.append(("C08:lib-without-support",
+                                  "LIB %d supported by the proposals of %d of the %d producers that have (had) an entry in the map, %d needed"
+                                  % (st["lib_no"], sup, np_, np_ - (np_ - 1) // 3), {"op_index": k, "prpsd": st["prpsd"]}))
+        elif op[0] in ("D", "R"):
+            ever = set(cur)          # reorganisation / restart: gc with the fork point's BP list, rebuild
         if op[0] in ("D", "R"):
             prev = o
     return fails
